@@ -69,7 +69,7 @@ type faultCase struct {
 func c01(args []string) {
 	c := chk.New("C01", "fault_enumeration", args)
 	c.Build(false)
-	c.Rule("directed topologies (single task; 2-output task feeding two consumers; 6 parallel tasks with fan-in; task with additional files; task whose declared output is a directory of three files; task with a streaming output beside two file outputs) x output-path shapes (plain, nested new directories, ../, absolute) x {command, Go function}; faults: every command failure mode on tasks in turn (exit non-zero before/mid/after writing, SIGKILL, SIGSEGV, shell killed, output omitted / misplaced), the process group killed by the command itself before / in the middle of / after writing, the group killed at hook crash points of every task (enumerated from the event log of a crash-free dry run), kills at logical instants (k-th line of the command trace); oracle after every terminated run: a file at a declared final path implies a successful end event of that task and the complete reference bytes; commands stat their own final path while running (must not exist); every other new file lies inside a _scipipe_tmp.* directory; commands whose output is written by a helper that outlives them (no failure at all: nothing may be visible before the helper is done); Go-function tasks also fail by panicking (after half / all of the output is written); commands that are scripts of several lines in which a line after the tool's successful end fails; faults injected by strace into the library's own write(2) of a Go function's OutIP().Write() (ENOSPC / EDQUOT / EIO on the first or second write to the temp file); commands that run two tools side by side ('tool1 & tool2; wait', three spellings, second tool also failing): both tools stat the final paths of both outputs while they run; six tasks failing at once with long error reports on a slowly read error stream (the failures overlap in time). distinct_nontrivial = distinct (topology, path shape, kind, fault, target) whose fault really fired (kill observed / failing command ran)")
+	c.Rule("directed topologies (single task; 2-output task feeding two consumers; 6 parallel tasks with fan-in; task with additional files; task whose declared output is a directory of three files; task with a streaming output beside two file outputs) x output-path shapes (plain, nested new directories, ../, absolute) x {command, Go function}; faults: every command failure mode on tasks in turn (exit non-zero before/mid/after writing, SIGKILL, SIGSEGV, shell killed, output omitted / misplaced), the process group killed by the command itself before / in the middle of / after writing, the group killed at hook crash points of every task (enumerated from the event log of a crash-free dry run), kills at logical instants (k-th line of the command trace); oracle after every terminated run: a file at a declared final path implies a successful end event of that task and the complete reference bytes; commands stat their own final path while running (must not exist); every other new file lies inside a _scipipe_tmp.* directory; commands whose output is written by a helper that outlives them (no failure at all: nothing may be visible before the helper is done); Go-function tasks also fail by panicking (after half / all of the output is written); commands that are scripts of several lines in which a line after the tool's successful end fails; faults injected by strace into the library's own write(2) of a Go function's OutIP().Write() (ENOSPC / EDQUOT / EIO on the first or second write to the temp file); a command that leaves a relative symbolic link to its 32 MiB input as its output (group killed the instant the final path exists: never a partial regular file); commands that run two tools side by side ('tool1 & tool2; wait', three spellings, second tool also failing): both tools stat the final paths of both outputs while they run; six tasks failing at once with long error reports on a slowly read error stream (the failures overlap in time). distinct_nontrivial = distinct (topology, path shape, kind, fault, target) whose fault really fired (kill observed / failing command ran)")
 	c.Assume("working directory, ../ targets and absolute targets are on one file system", "destination directories of ../ and absolute outputs exist before the run (as the property allows)", "<path>.audit.json files and empty directories are not judged")
 	rng := c.Rand("c01")
 	var tcs []topoCase
@@ -613,6 +613,7 @@ func c01(args []string) {
 	}
 	c01backgroundJobs(c)
 	c01writeFaults(c)
+	c01linkOutputs(c)
 	c.Finish()
 }
 
@@ -628,6 +629,49 @@ func faultClass(label string) string {
 		return classOf(label[5:])
 	}
 	return label
+}
+
+// c01linkOutputs: a command leaves a relative symbolic link to its (large) input as its output. Whatever the library
+// makes of it, no partially written regular file may ever be visible at the final path: the group is killed the
+// instant something exists there.
+func c01linkOutputs(c *chk.Ctx) {
+	run.Parallel(c.Pick(3, 8), func(i int) {
+		root := c.CaseDir()
+		defer c.Drop(root)
+		big := strings.Repeat("0123456789abcdef", 2<<20) // 32 MiB
+		outPat := []string{"passed.bin", "lk/deep/passed.bin", "passed.bin"}[i%3]
+		s := &spec.Spec{Name: "linkout", MaxTasks: 2, Sources: map[string]string{"big.bin": big}}
+		s.Procs = append(s.Procs, &spec.Proc{Name: "src", Kind: spec.KFileSource, Files: []string{"big.bin"}},
+			&spec.Proc{Name: "L", Kind: spec.KCmd, Cmd: spec.BuildCmd("L", []spec.PortDecl{{Name: "in"}}, []spec.PortDecl{{Name: "out"}}, nil, nil, map[string]string{"linkout": "1"}), Outs: []*spec.Out{{Port: "out", Pattern: outPat}}})
+		s.Conns = append(s.Conns, &spec.Conn{From: "src.out", To: "L.in"})
+		final := filepath.Join(root, "wd", outPat)
+		var kill []string
+		if i%3 != 2 {
+			kill = []string{final}
+		}
+		cs := &run.Case{Root: root, Bin: c.Bin, Spec: s, Env: Cfg{Buf: 128, Procs: 2}.env(), KillWhenExists: kill}
+		c.Eval(1)
+		res := cs.Run()
+		if res.Hang != "" {
+			c.Inconclusive("link output: " + res.Hang)
+			return
+		}
+		sd := s.Clone()
+		sd.Sources["big.bin"] = "<32 MiB: 2097152 x '0123456789abcdef'>"
+		desc := map[string]interface{}{"spec": sd, "killed_when_final_path_appeared": len(kill) > 0, "exit": res.Exit, "signal": res.Signal}
+		fi, err := os.Lstat(final)
+		switch {
+		case err != nil:
+			// nothing there
+		case fi.Mode()&os.ModeSymlink != 0:
+			// the link itself was moved: appears atomically
+		case fi.Mode().IsRegular() && fi.Size() != int64(len(big)):
+			c.Violation("final-path-partial-or-wrong|link-output", fmt.Sprintf("a command left a symbolic link to its 32 MiB input as output; at the final path there is a regular file of %d bytes (signal %q, exit %d)", fi.Size(), res.Signal, res.Exit), desc)
+			return
+		}
+		c.Count("link_output_cases", 1)
+		c.Nontrivial(fmt.Sprintf("linkout|%d|%v", i%3, res.Signal != ""))
+	})
 }
 
 // c01writeFaults: faults in the library's own file writing. A Go function hands its result to task.OutIP(port).Write();
